@@ -16,6 +16,10 @@ import (
 
 type nilIntr struct{}
 
+// declined is returned by an intrinsic that wants the real body interpreted
+// (e.g. all arguments are concrete).
+type declined struct{}
+
 func (P *Program) intrinsic(fn *ssa.Function, name string) externalFn {
 	if v, ok := P.intrCache.Load(fn); ok {
 		if f, ok := v.(externalFn); ok {
@@ -375,7 +379,139 @@ func miniFormat(format string, args []value) string {
 	return sb.String()
 }
 
+// byteCmp3 compares two byte slices lexicographically, forking on symbolic bytes.
+func (p *Path) byteCmp3(a, b []value) int {
+	c := p.ctx
+	n := len(a)
+	if len(b) < n {
+		n = len(b)
+	}
+	for k := 0; k < n; k++ {
+		x, y := p.byteTerm(a[k]), p.byteTerm(b[k])
+		if p.branch(c.Eq(x, y)) {
+			continue
+		}
+		if p.branch(c.Cmp(smt.KUlt, x, y)) {
+			return -1
+		}
+		return 1
+	}
+	switch {
+	case len(a) < len(b):
+		return -1
+	case len(a) > len(b):
+		return 1
+	}
+	return 0
+}
+
+func bytesOf(v value) []value {
+	switch x := v.(type) {
+	case []value:
+		return x
+	case string:
+		return []value(strToSym(x))
+	case symString:
+		return []value(x)
+	}
+	panic(engineError{fmt.Sprintf("bytesOf %T", v)})
+}
+
+// bitsLen builds Len(x) (number of bits needed) as an ite chain over w-bit x.
+func (p *Path) bitsLen(x *smt.Term) *smt.Term {
+	c := p.ctx
+	w := x.W
+	r := c.BV(0, 64)
+	for k := uint8(0); k < w; k++ {
+		// if x >= 2^k then at least k+1
+		r = c.Ite(c.Cmp(smt.KUle, c.BV(uint64(1)<<k, w), x), c.BV(uint64(k)+1, 64), r)
+	}
+	return r
+}
+
 func init() {
+	lenStub := func(width uint8, lz bool) externalFn {
+		return func(fr *frame, a []value) value {
+			s, ok := a[0].(sym)
+			if !ok {
+				return declined{}
+			}
+			p := fr.i.p
+			l := p.bitsLen(s.t)
+			if lz {
+				l = p.ctx.Bin(smt.KSub, p.ctx.BV(uint64(width), 64), l)
+			}
+			return box(l, types.Int)
+		}
+	}
+	stdStubs["math/bits.Len64"] = lenStub(64, false)
+	stdStubs["math/bits.Len32"] = lenStub(32, false)
+	stdStubs["math/bits.Len16"] = lenStub(16, false)
+	stdStubs["math/bits.Len8"] = lenStub(8, false)
+	stdStubs["math/bits.Len"] = lenStub(64, false)
+	stdStubs["math/bits.LeadingZeros64"] = lenStub(64, true)
+	stdStubs["math/bits.LeadingZeros32"] = lenStub(32, true)
+	stdStubs["math/bits.LeadingZeros"] = lenStub(64, true)
+	stdStubs["math/bits.LeadingZeros8"] = lenStub(8, true)
+	ones := func(fr *frame, a []value) value {
+		s, ok := a[0].(sym)
+		if !ok {
+			return declined{}
+		}
+		p := fr.i.p
+		c := p.ctx
+		r := c.BV(0, 64)
+		for k := uint8(0); k < s.t.W; k++ {
+			r = c.Bin(smt.KAdd, r, c.Zext(c.Extract(s.t, k, k), 64))
+		}
+		return box(r, types.Int)
+	}
+	stdStubs["math/bits.OnesCount64"] = ones
+	stdStubs["math/bits.OnesCount"] = ones
+	stdStubs["math/bits.OnesCount32"] = ones
+	stdStubs["math/bits.OnesCount8"] = ones
+	tz := func(fr *frame, a []value) value {
+		s, ok := a[0].(sym)
+		if !ok {
+			return declined{}
+		}
+		p := fr.i.p
+		c := p.ctx
+		w := s.t.W
+		r := c.BV(uint64(w), 64)
+		for k := int(w) - 1; k >= 0; k-- {
+			r = c.Ite(c.Eq(c.Extract(s.t, uint8(k), uint8(k)), c.BV(1, 1)), c.BV(uint64(k), 64), r)
+		}
+		return box(r, types.Int)
+	}
+	stdStubs["math/bits.TrailingZeros64"] = tz
+	stdStubs["math/bits.TrailingZeros"] = tz
+	stdStubs["math/bits.TrailingZeros32"] = tz
+	stdStubs["internal/bytealg.Compare"] = func(fr *frame, a []value) value {
+		return fr.i.p.byteCmp3(bytesOf(a[0]), bytesOf(a[1]))
+	}
+	stdStubs["bytes.Compare"] = stdStubs["internal/bytealg.Compare"]
+	stdStubs["bytes.Equal"] = func(fr *frame, a []value) value {
+		x, y := bytesOf(a[0]), bytesOf(a[1])
+		if len(x) != len(y) {
+			return false
+		}
+		return fr.i.p.symStringEq(symString(x), symString(y))
+	}
+	stdStubs["internal/bytealg.Equal"] = stdStubs["bytes.Equal"]
+	stdStubs["bytes.IndexByte"] = func(fr *frame, a []value) value {
+		p := fr.i.p
+		s := bytesOf(a[0])
+		ct := p.byteTerm(a[1])
+		for k, b := range s {
+			if p.branch(p.ctx.Eq(p.byteTerm(b), ct)) {
+				return k
+			}
+		}
+		return -1
+	}
+	stdStubs["internal/bytealg.IndexByte"] = stdStubs["bytes.IndexByte"]
+	stdStubs["internal/bytealg.IndexByteString"] = stdStubs["bytes.IndexByte"]
 	stdStubs["fmt.Errorf"] = func(fr *frame, a []value) value {
 		return mkError(fr, miniFormat(str(a[0]), a[1].([]value)))
 	}
